@@ -9,8 +9,8 @@ import (
 )
 
 var (
-	reJSONDecode = regexp.MustCompile(`json\.Unmarshal\(value, (&[A-Za-z0-9_.]+)\)`)
-	reYAMLDecode = regexp.MustCompile(`value\.Decode\((&[A-Za-z0-9_.]+)\)`)
+	reJSONDecode = regexp.MustCompile(`json\.Unmarshal\(value, (&[A-Za-z0-9_.]+|\(\*?\w+\)\(\w+\))\)`)
+	reYAMLDecode = regexp.MustCompile(`value\.Decode\((&[A-Za-z0-9_.]+|\(\*?\w+\)\(\w+\))\)`)
 	reBranch     = regexp.MustCompile(`\.Unmarshal(JSON|YAML)\(value\)`)
 )
 
